@@ -11,7 +11,7 @@ Section DocInd.
   Hypothesis Hnull : P DNull.
   Hypothesis Hbool : forall b, P (DBool b).
   Hypothesis Hint : forall ty z, P (DInt ty z).
-  Hypothesis Hfloat : forall n s, P (DFloat n s).
+  Hypothesis Hfloat : forall n s sfx r, P (DFloat n s sfx r).
   Hypothesis Hstr : forall s, P (DStr s).
   Hypothesis Harr : forall l tc, Forall P l -> P (DArr l tc).
   Hypothesis Hobj : forall l tc, Forall (fun e => P (dval e)) l -> P (DObj l tc).
@@ -21,7 +21,7 @@ Section DocInd.
     | DNull => Hnull
     | DBool b => Hbool b
     | DInt ty z => Hint ty z
-    | DFloat n s => Hfloat n s
+    | DFloat n s sfx r => Hfloat n s sfx r
     | DStr s => Hstr s
     | DArr l tc =>
         Harr l tc ((fix go (l : list doc) : Forall P l :=
@@ -71,7 +71,7 @@ Proof. reflexivity. Qed.
 
 (* ---------- fuel ---------- *)
 Section Fuel.
-  Variable fmt : list N -> option (list N).
+  Variable fmt : fty -> list N -> option (list N).
   Variable env : list N -> option (list N).
   Notation rn := (mrun fmt env).
 
@@ -145,7 +145,7 @@ End Fuel.
 Definition arg_of (d : doc) : list tt :=
   match d with
   | DInt ty z => [TNt (if (z <? 0)%Z then ENeg (LInt (Z.abs_N z) ty) else ELit (LInt (Z.abs_N z) ty))]
-  | DFloat neg s => [TNt (if neg then ENeg (LFloat s) else ELit (LFloat s))]
+  | DFloat neg s sfx _ => [TNt (if neg then ENeg (LFloat s sfx) else ELit (LFloat s sfx))]
   | DStr s => [TNt (ELit (LStr s))]
   | _ => tokens d
   end.
@@ -164,7 +164,7 @@ Ltac arr_rules :=
 Lemma elem_step d es tail :
   first_match rules (arr_inv (emit_trail es) (tokens d ++ tail)) = Some (arr_push es (arg_of d) tail).
 Proof.
-  destruct d as [|[|]|ty z|[|] s|s|l tc|l tc]; cbn [tokens arg_of]; try destruct (z <? 0)%Z;
+  destruct d as [|[|]|ty z|[|] s sfx r|s|l tc|l tc]; cbn [tokens arg_of]; try destruct (z <? 0)%Z;
     arr_rules; reflexivity.
 Qed.
 
@@ -228,7 +228,7 @@ Lemma value_step d es t ks tail cp :
   first_match rules (obj_inv (emit_trail es) (t :: ks) (TPunct PColon :: tokens d ++ tail) cp)
   = Some (obj_push es (t :: ks) (arg_of d) tail).
 Proof.
-  destruct d as [|[|]|ty z|[|] s|s|l tc|l tc]; cbn [tokens arg_of]; try destruct (z <? 0)%Z;
+  destruct d as [|[|]|ty z|[|] s sfx r|s|l tc|l tc]; cbn [tokens arg_of]; try destruct (z <? 0)%Z;
     obj_rules; reflexivity.
 Qed.
 
@@ -269,7 +269,7 @@ Qed.
 
 Lemma tokens_cons d : exists t ts, tokens d = t :: ts.
 Proof.
-  destruct d as [|b|ty z|[|] s|s|l tc|l tc]; cbn [tokens]; try destruct (z <? 0)%Z; eauto.
+  destruct d as [|b|ty z|[|] s sfx r|s|l tc|l tc]; cbn [tokens]; try destruct (z <? 0)%Z; eauto.
 Qed.
 
 Lemma dom_arr fmt env l tc : dom fmt env (DArr l tc) <-> Forall (dom fmt env) l.
@@ -296,7 +296,7 @@ Proof.
 Qed.
 
 Section Expand.
-  Variable fmt : list N -> option (list N).
+  Variable fmt : fty -> list N -> option (list N).
   Variable env : list N -> option (list N).
   Notation rn := (mrun fmt env).
 
@@ -413,7 +413,7 @@ End Expand.
 
 (* ---------- the main theorem about the rule model ---------- *)
 Section Main.
-  Variable fmt : list N -> option (list N).
+  Variable fmt : fty -> list N -> option (list N).
   Variable env : list N -> option (list N).
   Notation rn := (mrun fmt env).
 
@@ -448,18 +448,18 @@ Section Main.
       cbn [try_from_expr]. rewrite C. reflexivity.
   Qed.
 
-  Lemma leaf_float neg s : fmt s = Some s ->
-    rn 1 (tokens (DFloat neg s)) = Some (RVal (value_of (DFloat neg s))) /\
-    rn 1 (arg_of (DFloat neg s)) = Some (RVal (value_of (DFloat neg s))).
+  Lemma leaf_float neg s sfx r : fmt (match sfx with Some t => t | None => FT64 end) s = Some r ->
+    rn 1 (tokens (DFloat neg s sfx r)) = Some (RVal (value_of (DFloat neg s sfx r))) /\
+    rn 1 (arg_of (DFloat neg s sfx r)) = Some (RVal (value_of (DFloat neg s sfx r))).
   Proof.
     intros H. cbn [tokens arg_of value_of]. destruct neg; split; rewrite run_S.
-    - change (first_match rules [TPunct PMinus; TLit (LFloat s)]) with (Some (OTryFrom (ENeg (LFloat s)))).
+    - change (first_match rules [TPunct PMinus; TLit (LFloat s sfx)]) with (Some (OTryFrom (ENeg (LFloat s sfx)))).
       cbn [try_from_expr conv_lit]. rewrite H. reflexivity.
-    - change (first_match rules [TNt (ENeg (LFloat s))]) with (Some (OTryFrom (ENeg (LFloat s)))).
+    - change (first_match rules [TNt (ENeg (LFloat s sfx))]) with (Some (OTryFrom (ENeg (LFloat s sfx)))).
       cbn [try_from_expr conv_lit]. rewrite H. reflexivity.
-    - change (first_match rules [TLit (LFloat s)]) with (Some (OTryFrom (ELit (LFloat s)))).
+    - change (first_match rules [TLit (LFloat s sfx)]) with (Some (OTryFrom (ELit (LFloat s sfx)))).
       cbn [try_from_expr conv_lit]. rewrite H. reflexivity.
-    - change (first_match rules [TNt (ELit (LFloat s))]) with (Some (OTryFrom (ELit (LFloat s)))).
+    - change (first_match rules [TNt (ELit (LFloat s sfx))]) with (Some (OTryFrom (ELit (LFloat s sfx)))).
       cbn [try_from_expr conv_lit]. rewrite H. reflexivity.
   Qed.
 
@@ -479,11 +479,11 @@ Section Main.
 
   Theorem run_tokens : forall d, dom fmt env d -> Good d.
   Proof.
-    induction d as [|b|ty z|neg s|s|l tc IH|l tc IH] using doc_ind'; intros Hd.
+    induction d as [|b|ty z|neg s sfx r|s|l tc IH|l tc IH] using doc_ind'; intros Hd.
     - split; exists 1%nat; reflexivity.
     - split; exists 1%nat; destruct b; reflexivity.
     - destruct (leaf_int ty z Hd). split; exists 1%nat; assumption.
-    - destruct Hd as [_ Hs]. destruct (leaf_float neg s Hs). split; exists 1%nat; assumption.
+    - destruct Hd as [_ Hs]. destruct (leaf_float neg s sfx r Hs). split; exists 1%nat; assumption.
     - split; exists 1%nat; reflexivity.
     - assert (G : exists f, rn f (tokens (DArr l tc)) = Some (RVal (value_of (DArr l tc)))).
       { apply dom_arr in Hd.
@@ -615,16 +615,19 @@ Proof.
 Qed.
 
 (* ---------- the corresponding JSON text ---------- *)
-Lemma float_lit_jnum s : float_lit s -> jnum s /\ jnum (0x2D :: s).
+Lemma unsigned_num_jnum r : unsigned_num r -> jnum r /\ jnum (0x2D :: r).
 Proof.
-  intros (i & f & e & Hi & Hf & He & _ & ->). split.
+  intros (i & f & e & Hi & Hf & He & ->). split.
   - exists [], i, f, e. repeat split; auto.
   - exists [0x2D], i, f, e. repeat split; auto.
 Qed.
 
+Lemma float_lit_unsigned s : float_lit s -> unsigned_num s.
+Proof. intros (i & f & e & Hi & Hf & He & _ & ->). exists i, f, e. auto. Qed.
+
 Theorem text_is_ser_min : forall d, text d = ser_min (value_of d).
 Proof.
-  induction d as [|b|ty z|neg s|s|l tc IH|l tc IH] using doc_ind'; cbn [text value_of ser_min]; try reflexivity.
+  induction d as [|b|ty z|neg s sfx r|s|l tc IH|l tc IH] using doc_ind'; cbn [text value_of ser_min]; try reflexivity.
   - rewrite map_map. do 3 f_equal. induction IH as [|x r Hx _ IHr]; [reflexivity|].
     cbn [map]. rewrite Hx, IHr. reflexivity.
   - rewrite map_map. do 3 f_equal. induction IH as [|x r Hx _ IHr]; [reflexivity|].
@@ -633,11 +636,11 @@ Qed.
 
 Theorem dom_wfv fmt env : forall d, dom fmt env d -> wfv (value_of d).
 Proof.
-  induction d as [|b|ty z|neg s|s|l tc IH|l tc IH] using doc_ind'; intros Hd; cbn [value_of].
+  induction d as [|b|ty z|neg s sfx r|s|l tc IH|l tc IH] using doc_ind'; intros Hd; cbn [value_of].
   - exact I.
   - exact I.
   - cbn [wfv]. apply dec_of_Z_jnum.
-  - cbn [wfv]. destruct Hd as [Hs _]. destruct (float_lit_jnum s Hs). destruct neg; assumption.
+  - cbn [wfv]. destruct Hd as [Hs _]. destruct (unsigned_num_jnum r Hs). destruct neg; assumption.
   - exact Hd.
   - apply wfv_arr. apply dom_arr in Hd. apply Forall_map.
     induction l as [|x r IHr]; constructor.
@@ -709,6 +712,21 @@ Proof. intros H. exact (expand_tokens _ _ _ H). Qed.
 
 Theorem int_spelling z : jnum (dec_of_Z z) /\ Z_of_dec (dec_of_Z z) = z.
 Proof. split; [apply dec_of_Z_jnum|apply dec_of_Z_reads_back]. Qed.
+
+(* the special case of a float literal that is re-spelt as itself: its JSON text is the
+   literal text *)
+Theorem self_respelt_float fmt env neg s :
+  float_lit s -> fmt FT64 s = Some s ->
+  dom fmt env (DFloat neg s None s) /\
+  text (DFloat neg s None s) = (if neg then 0x2D :: s else s) /\
+  exists fuel m, expand fmt env fuel (if neg then [TPunct PMinus; TLit (LFloat s None)] else [TLit (LFloat s None)])
+                   = Some (VNum (if neg then 0x2D :: s else s))
+                 /\ parse_str (if neg then 0x2D :: s else s) = Ok (VNum (if neg then 0x2D :: s else s), m).
+Proof.
+  intros Hs Hf.
+  assert (Hd : dom fmt env (DFloat neg s None s)) by (split; [apply float_lit_unsigned; exact Hs|exact Hf]).
+  split; [exact Hd|]. split; [reflexivity|]. exact (macro_equals_parse fmt env _ Hd).
+Qed.
 
 Print Assumptions macro_equals_parse.
 Print Assumptions trailing_comma_irrelevant.
